@@ -107,6 +107,19 @@ def gen_ins_state(ctx):
                   self_attrs={"_weights": ("u_weights", V.VLOG), "logZ": ("(logZ u_logZ u_n)", V.LOG)}),
         V.VecSpec(source="nessai/evidence.py", func="log_evidence_from_ins_samples", name="log_evidence_from_ins_samples", params=[],
                   rec_params={"samples": ("sL", "sW")}, result="K", lsum="sumL"),
+        # the quantities behind the `ratio` / `ratio_ns` stopping criteria (C15)
+        V.VecSpec(source="nessai/evidence.py", cls="_INSIntegralState", func="log_evidence_live_points", name="log_evidence_live_points",
+                  params=[], result="K", self_attrs={"_weights_lp": ("u_weights_lp", V.VLOG)}, lsum="sumL",
+                  # the arm for a state without live points raises: outside the domain (the criteria are computed with live points)
+                  delegate={"self._weights_lp is None": "raise RuntimeError('Live points are not set')"}),
+        V.VecSpec(source="nessai/evidence.py", cls="_INSIntegralState", func="log_evidence_nested_samples", name="log_evidence_nested_samples",
+                  params=[], result="K", self_attrs={"_weights_ns": ("u_weights_ns", V.VLOG)}, lsum="sumL"),
+        V.VecSpec(source="nessai/evidence.py", cls="_INSIntegralState", func="compute_evidence_ratio", name="compute_evidence_ratio",
+                  params=[("ns_only", "ns_only", V.BOOL)], result="K", lsum="sumL",
+                  extra_binders="(u_weights_lp u_weights_ns : List K) (u_logZ : K) (u_n : Nat)",
+                  self_attrs={"log_evidence_live_points": ("(log_evidence_live_points u_weights_lp)", V.LOG),
+                              "log_evidence_nested_samples": ("(log_evidence_nested_samples u_weights_ns)", V.LOG),
+                              "logZ": ("(logZ u_logZ u_n)", V.LOG)}),
     ]
     parts, infos = [], {}
     try:
